@@ -19,6 +19,11 @@ CHECKS = [
           "Trusted: Coq kernel, extraction, harness; SHA-256 collision freedom idealised (theorems speak about preimages); correspondence is sampling.",
           "Coq proof (injectivity of the section serialisation by induction; sort/permutation lemmas) + differential correspondence on near-miss rule pairs",
           "DESIGN.md 5 C13"),
+    check("C14", "proof",
+          "Coq theorems about the parser model for all texts: totality (the bundle parser's fuel is never exhausted), every state-machine error carries the right line, several files = concatenation with first error, round trip of every well-formed flat file under all blank-line / final-newline choices with duplicates merged and paths in bytewise order, independence of line order, round trip of tab-indented bundles (distinct sibling names) and of rules whose sections are bundles, and a general round-trip for any rule text whose blocks the bundle parser accepts. Model tied to rule::parse / parse_all / PathBundle::parse_lines by exact comparison of Results on rendered ASTs, single-edit corruptions, truncations, soup and exhaustive short texts.",
+          "Trusted: Coq kernel, extraction, harness; panic freedom of the Rust code is observed, not proved; repeated identical directory subtrees and exact bundle errors are covered by correspondence only; correspondence is sampling.",
+          "Coq proof (state-machine invariants, nested induction over bundle forests, sort/permutation lemmas) + differential correspondence of parse results",
+          "DESIGN.md 5 C14"),
     check("C15", "proof",
           "Coq theorems for all 256-bit values and all byte strings: decode62(encode62 b)=b, everything accepted is a true encoding, exact classification of rejected strings (length, first foreign character, overflow), chunking-independence of the file hash, injectivity of the directory preimage. Model tied to src/ticket.rs by differential runs (base-62 both ways incl. overflow band and multi-byte input; TicketFactory::from_file on every length 0..1100 under six read chunkings vs the extracted Coq SHA-256).",
           "Trusted: Coq kernel, ExtrOcamlBasic extraction, harness; rust-crypto's SHA-256 is tested against the Coq implementation (FIPS vectors by vm_compute), not proved; correspondence is sampling.",
